@@ -188,6 +188,8 @@ fn do_dt(c: &J) -> J {
             let o = run_ctx(d.as_ref(), &text, ctx);
             r[names[ctx]] = out_json(&o, &v, d.as_ref(), ctx);
         }
+        let bs = c["bs_dialects"].as_array().map(|a| a.iter().any(|x| x.as_str() == Some(dn.as_str()))).unwrap_or(false);
+        let reft = if bs { c["ref_bs"].as_str().or(reft) } else { reft };
         if let Some(rt) = reft {
             r["cert"] = json!(standalone(d.as_ref(), rt) == Out::Ok(v.clone()));
             if c["ref_toks"] == true {
